@@ -452,3 +452,34 @@ CLAIM.update({
         ref="DESIGN.md section 4, C17", technique="bounded-exhaustive cell product + property-based testing (rapid) with harness-owned data arrival; oracle = bounded return, error class, stream suffix relation, goroutine census",
         note="found and fixed: bridge pipe ignored deadlines (30e87b2)"),
 })
+
+PLAN["C16"] = dict(
+    quick=[dict(test="TestC16Pairs", race=True), dict(test="TestC16Rapid", checks=40, race=True, env={"VERIF_C16_SCHEDULES": "40"})],
+    thorough=[*shards("TestC16Pairs", 2, race=True), *shards("TestC16Rapid", 2, checks=400, race=True, env={"VERIF_C16_SCHEDULES": "400"})],
+    race=True, workers=2, replay_repeat=3,
+)
+
+LEVEL.update({"C16": "exploration"})
+RULE.update({
+    "C16": "case = a schedule: a serving call (Listen or Bind+DoListen, timeout 0 / 20 / 200 ms, abstract unix or TCP) plus 2-5 operations started "
+           "concurrently at generated offsets (0-2 ms in 100 us steps), each possibly sustained for 5-50 ms, repeated for 3-25 rounds on a fresh or "
+           "on the SAME service object: Shutdown; sustained GetListener; sustained RegisterInterface attempts (refused while serving, also tried "
+           "during the drain phase); clients doing connect+GetInfo+GetInterfaceDescription+close; a client that keeps calling on one connection "
+           "across the shutdown (drain phase); Call cancelled after 50-200 us and the connection reused; a more-stream; an upgraded call with handler "
+           "and client raw Read/ReadBytes/Write incl. a cancelled raw read; cancellation of the serving context. Every pair of operation kinds "
+           "(thorough: every triple) is enumerated, then rapid-generated schedules. The usage contract is kept by construction (one goroutine per "
+           "Connection, handler I/O in the handler, re-serve only after return). Each schedule runs in a FRESH child process of the -race build "
+           "(GORACE halt_on_error=0 log_path=...); oracle: no race report whose access stacks contain a github.com/varlink/go/varlink frame "
+           "(reports confined to harness code are a harness failure, exit 2). Non-trivial = at least two operations really overlapped in time "
+           "(start/end instants are recorded by the child).",
+})
+ASSUME.update({"C16": ["the race detector sees only the interleavings that execute; generation varies which operations overlap, repetition how",
+                        "two RegisterInterface calls racing each other with no serving call in progress are outside the statement but are race-free anyway after the fix"]})
+CLAIM.update({
+    "C16": dict(
+        text="Generated concurrent schedules executed under the Go race detector, one fresh process per schedule so that no report is suppressed; "
+             "all pairs (thorough: triples) of operation kinds are enumerated, random schedules with generated offsets, durations and repetition "
+             "beyond; a report with library frames is a violation.",
+        ref="DESIGN.md section 4, C16", technique="schedule fuzzing: bounded-exhaustive operation pairs/triples + rapid-generated schedules, with the race detector (happens-before analysis) as the oracle",
+        note="found and fixed: running flag race (7c75a32), registry map race during drain (9550491)"),
+})
